@@ -1,11 +1,11 @@
 package sim
 
 import (
-	"time"
 	"bytes"
 	"fmt"
 	"sort"
 	"sync"
+	"time"
 
 	"github.com/tsuna/gohbase/pb"
 	"google.golang.org/protobuf/proto"
